@@ -84,6 +84,8 @@ theorem incNumRecvStreams_pp (s : Streams) (k : Nat) : PP s (s.incNumRecvStreams
   unfold Streams.incNumRecvStreams; pp_auto
 theorem incNumSendStreams_pp (s : Streams) (k : Nat) : PP s (s.incNumSendStreams k) := by
   unfold Streams.incNumSendStreams; pp_auto
+theorem notifyPushIfRecvEnded_pp (s : Streams) (k : Nat) : PP s (s.notifyPushIfRecvEnded k) := by
+  unfold Streams.notifyPushIfRecvEnded; pp_auto
 theorem recvRecvTrailers_pp (s : Streams) (k : Nat) (h : HeadersIn) : PP s (s.recvRecvTrailers k h).1 := by
   unfold Streams.recvRecvTrailers; pp_auto
 theorem recvRecvPushPromise_pp (s : Streams) (k : Nat) (h : HeadersIn) : PP s (s.recvRecvPushPromise k h).1 := by
